@@ -265,8 +265,8 @@ func init() {
 		Assumptions: []string{"the operand stack holds fixed-size value headers, so live data size does not enter the stack pointer"},
 		Families: []core.Family{
 			{Name: "corpus", Count: func(string) int { return len(corpusSessions()) * 2 * len(stressModes) }, Run: func(_ *core.Ctx, idx int) core.Result { return corpusCase("C09", idx, true) }},
-			{Name: "residue", Count: countFn(5000, 500000), Run: c09Residue},
-			{Name: "scaling", Count: countFn(1500, 150000), Run: c09Scaling},
+			{Name: "residue", Count: countFn(12000, 500000), Run: c09Residue},
+			{Name: "scaling", Count: countFn(5000, 150000), Run: c09Scaling},
 		},
 		Floors: []core.Floor{{Key: "statements_compared", Quick: 10000, Thor: 1000000}, {Key: "scaling_triples", Quick: 1000, Thor: 100000}, {Key: "back_edges_sampled", Quick: 200000, Thor: 20000000}, {Key: "tag:loop:", Quick: 14, Thor: 14}},
 	})
